@@ -14,6 +14,8 @@ import (
 	"bufio"
 	"encoding/json"
 	"fmt"
+	"os"
+	"runtime/debug"
 	"strings"
 
 	"github.com/grafana/cog/internal/ast"
@@ -81,6 +83,9 @@ func c15ParseRequest(line string) (*c15Case, error) {
 func c15Process(passes compiler.Passes, in ast.Schemas) (status string, out ast.Schemas) {
 	defer func() {
 		if r := recover(); r != nil {
+			if os.Getenv("C15_DEBUG") != "" {
+				fmt.Fprintf(os.Stderr, "panic: %v\n%s\n", r, debug.Stack())
+			}
 			status, out = "panic", nil
 		}
 	}()
